@@ -16,7 +16,7 @@ func vhWriteSet() {
 	fsys := vNewFs()
 	fsys.advance = true
 	t0 := time.Unix(1700000000, 0)
-	dirs := []string{"", "d/", "d/e/"}
+	dirs := []string{"", "d/", "x.y/e/"}
 	bases := []string{"root", "r.oot", "ROOT"}
 	sufs := []string{".yaml", ".YML", ".Json"}
 	rootPath := dirs[vChoose("rootdir", 3)] + bases[vChoose("rootbase", 3)] + sufs[vChoose("rootsuf", 3)]
@@ -25,7 +25,7 @@ func vhWriteSet() {
 	fsys.put(rootPath, []byte(string(vCfg("root", ""))+"alias: "+rootAlias+"\n"), t0)
 	fsys.put(subPath, vCfg("sub", rootAlias), t0)
 	fsys.put("notes.txt", []byte("hello"), t0)
-	fsys.put("d/prof.yaml", []byte("version: 1\nname: someprofile\nvalidity:\n  from: 2024-01-01\n  until: 2026-01-01\n"), t0)
+	fsys.put("x.y/prof.yaml", []byte("version: 1\nname: someprofile\nvalidity:\n  from: 2024-01-01\n  until: 2026-01-01\n"), t0)
 	before := map[string]string{}
 	for _, n := range fsys.order {
 		before[n] = string(fsys.files[n].data)
